@@ -11,7 +11,7 @@ PROPS = {
         'bounded': [('contracts.nm_update', 'src/pharmpy/model/external/nonmem/update.py:new_advan_trans',
                      'every model handed to new_advan_trans while one (quick) / two (thorough) structural setters '
                      'are applied to three start models')],
-        'custom': [('contracts.b_nm', 'bounded_codegen_roundtrip')],
+        'custom': [('contracts.b_nm', 'bounded_codegen_roundtrip'), ('contracts.b_cmt', 'bounded_cmt_columns')],
         'assumptions': [PY_SUBSET],
         'explanation': 'the edit scripts consumed by the code generator (lcs.diff) and the choice of the ADVAN/TRANS '
                        'pair (new_advan_trans: first matching library routine, a pair PREDPP accepts, ADVAN13 without '
